@@ -58,7 +58,7 @@ PROP = dict(
              "nothing applies; ForwardTable / AgentTable lookups return the lowest-metric route of the key, nothing iff none is stored. Model tied "
              "to the code by a differential run of the three real tables against the compiled model.",
         design_ref="DESIGN.md section 5 C09",
-        note="Lean kernel; ASCII model of ToLower/TrimSpace; stable-sort model of sort.Slice; T-diff generator coverage",
+        note="Lean kernel; strings.ToLower/TrimSpace as parameters (ASCII modelled, else Go oracle); tie-run normalisation for sort.Slice; T-diff generator coverage",
         technique="Lean 4 proof (inductive invariant, generic keyed table) + differential correspondence harness + executable statement on impl answers",
     ),
 )
